@@ -708,13 +708,14 @@ Varable failures: {var_failed}
 
         newdimlen = max(self.NVARS, 1)
         if 'VAR' in self.dimensions:
-            if newdimlen != len(self.dimensions['VAR']):
+            # update=False is a query: leave this file as it is
+            if update and newdimlen != len(self.dimensions['VAR']):
                 try:
                     self.createDimension('VAR', newdimlen)
                 except Exception:
                     pass
                 # add updatetflag
-        else:
+        elif update:
             self.createDimension('VAR', newdimlen)
 
         if retval == 'str':
